@@ -83,6 +83,71 @@ func (g Dag) simulate() (map[string]string, map[string][]emitted) {
 	return files, em
 }
 
+// metadata of the nodes in netEncode's order, for the Lean network model with values
+func netMetas(g Dag) []string {
+	out := []string{}
+	for _, n := range g.Nodes {
+		switch n.Kind {
+		case "src":
+			out = append(out, n.Name+":src:0:")
+		case "psrc":
+			out = append(out, n.Name+":psrc:0:"+strings.Join(n.PVals, ","))
+		case "proc":
+			if n.PIn == "@" {
+				out = append(out, n.Name+"@feeder:psrc:0:"+strings.Join(n.PVals, ","))
+			}
+			out = append(out, fmt.Sprintf("%s:proc:%d:", n.Name, len(n.Ins)))
+		}
+	}
+	return out
+}
+
+// the files the real run wrote against the Lean network model with values (Model/NetVal.lean: a maximal run under
+// a schedule of its own; Props/C04 proves that every schedule yields the zip-semantics streams)
+func netValues(ctx *Ctx, c c04Case, dir string, balanced bool) {
+	names, ins, src, ok := netEncode(c.Dag)
+	if !ok {
+		ctx.Res.Count("net-values=not-covered")
+		return
+	}
+	resp := ctx.Drv.Ask("net.values", fmt.Sprint(len(names)), strings.Join(ins, ";"), strings.Join(src, ","), fmt.Sprint(c.Buf), strings.Join(netMetas(c.Dag), ";"))
+	parts := strings.Split(resp, "\x1f")
+	if len(parts) != len(names)+1 || parts[0] != "zip=true" {
+		ctx.Res.Disagree(Violation{What: fmt.Sprintf("network model with values: unexpected answer %.120q", resp), Class: "c04.netval", Witness: c})
+		return
+	}
+	ctx.Res.Count("net-values=compared")
+	want := map[string]string{}
+	for i, nm := range names {
+		nd := c.Dag.node(nm)
+		if nd == nil || nd.Kind != "proc" || nd.NoOut || parts[i+1] == "" {
+			continue
+		}
+		for _, item := range strings.Split(parts[i+1], "\x1d") {
+			f := strings.Split(item, "\x1e")
+			want[f[0]] = strings.Join(f[1:], "\n") + "\n"
+		}
+	}
+	for p, w := range want {
+		s, ok := readFile(dir, p)
+		if !ok && !balanced {
+			continue // F20b: upstream of an abandoned port the number of tasks is timing dependent
+		}
+		if !ok {
+			ctx.Res.Disagree(Violation{What: fmt.Sprintf("the network model with values has process output %s, the real run has no such file", p), Class: "c04.netval", Witness: c})
+		} else if s != w {
+			ctx.Res.Disagree(Violation{What: fmt.Sprintf("output %s holds %q, the network model with values says %q", p, s, w), Class: "c04.netval", Witness: c})
+		}
+	}
+	if balanced {
+		for p := range listFiles(dir) {
+			if _, ok := want[p]; strings.HasSuffix(p, ".o") && !ok {
+				ctx.Res.Disagree(Violation{What: fmt.Sprintf("the real run wrote %s, which no schedule of the network model with values produces", p), Class: "c04.netval", Witness: c})
+			}
+		}
+	}
+}
+
 type c04Case struct {
 	Dag Dag `json:"dag"`
 	Buf int `json:"bufsize"`
@@ -166,6 +231,7 @@ func runC04(ctx *Ctx, c c04Case) {
 	if len(extra) > 0 {
 		ctx.Res.Violate(Violation{What: fmt.Sprintf("unexpected outputs %v (an item was paired differently or processed twice)", extra), Class: cls("c04.extra-file"), Witness: c})
 	}
+	netValues(ctx, c, rr.Dir, c04Balanced)
 	// Lean task-creation model on the delivered streams of one multi-port process
 	for _, n := range c.Dag.Nodes {
 		if n.Kind == "proc" && len(n.Ins) >= 1 {
